@@ -556,17 +556,35 @@ def explore_levels(make_spec, spec_args, report, max_depth, chunk=32):
         ntr = 0
         sigs = set()
         local = set()
+        def diverged(init, hist, m):
+            # an accepted history disagrees with the reference when it is executed again: the library's behaviour
+            # depends on something other than the history (object identity, a global); that execution is a violation
+            sig = dict({"spec": sp.cls_name, "kind": m.kind, "op": "replay-of-accepted-history"}, **m.sig_extra)
+            full = [list(o) for o in hist]
+            rep.violation(sig, "%s: %s when the accepted history init=%r history=%r is executed again: %s" % (
+                sp.name, m.kind, init, full, m.detail),
+                {"engine": "seqmc", "spec": sp.name, "capacity": sp.capacity, "init": init, "history": full,
+                 "detail": m.detail, "snippet": sp.snippet(init, full)})
+
         for init, hist in tasks:
             sp.replaying = True
-            impl, model = sp.build(init)
-            for op in hist:
-                model = sp.step(impl, model, op)
+            try:
+                impl, model = sp.build(init)
+                for op in hist:
+                    model = sp.step(impl, model, op)
+            except Mismatch as m:
+                diverged(init, hist, m)
+                continue
             menu = sp.ops(impl, model)
             for op in menu:
                 sp.replaying = True
-                impl, model = sp.build(init)
-                for o in hist:
-                    model = sp.step(impl, model, o)
+                try:
+                    impl, model = sp.build(init)
+                    for o in hist:
+                        model = sp.step(impl, model, o)
+                except Mismatch as m:
+                    diverged(init, hist, m)
+                    break
                 sp.replaying = False
                 ntr += 1
                 try:
